@@ -9,10 +9,13 @@ import (
 	"syscall"
 
 	"github.com/douban/gobeansdb/loghub"
+	"github.com/douban/gobeansdb/vhook"
 )
 
 func Remove(path string) error {
 	loghub.ErrorLogger.Logf(loghub.INFO, "remove path: %s", path)
+	vhook.FS(vhook.Before, "remove", path, 0, 0)
+	defer vhook.FS(vhook.After, "remove", path, 0, 0)
 	return os.Remove(path)
 }
 
